@@ -1,6 +1,6 @@
 (* C12 — patch metadata describe the patch, and patch i belongs to centre i. *)
 From Coq Require Import Permutation.
-From Verif Require Import Prelude Metadata MetadataP.
+From Verif Require Import Prelude Metadata MetadataP Alias AliasP.
 Open Scope Q_scope.
 
 Theorem C12_meta_counts : forall dists ws,
@@ -223,3 +223,18 @@ Example C12_concrete :
   check_order g_nrec cats = [2; 1; 0]%nat /\ guard_many cats dt (1#2) = false /\
   c12_guardn_case cats dt true = 7%nat /\ c12_guardn_case cats dt false = 0%nat.
 Proof. vm_compute. repeat split; reflexivity. Qed.
+
+(* ---------------- what the accessors hand out belongs to the caller ---------------- *)
+(* the accessors read the records into memory of the caller's own: working in place on it leaves the stored records,
+   and hence the truth of the stored metadata, as they were ... *)
+Theorem C12_caller_update_keeps_metadata : forall (V : Type) (f : list V -> list V) (meta : list V -> nat) (m : nat -> nat)
+  (s : @store V) (p : nat),
+  describes meta m s -> describes meta m (fst (caller_update f s (get_copy s p))).
+Proof. exact @copy_update_keeps_metadata. Qed.
+Print Assumptions C12_caller_update_keeps_metadata.
+(* ... a write-through view of the cache file does not *)
+Theorem C12_write_through_view_refuted :
+  exists (f : list nat -> list nat) (meta : list nat -> nat) (m : nat -> nat) (s : @store nat) p,
+    describes meta m s /\ ~ describes meta m (fst (caller_update f s (get_view s p))).
+Proof. exact view_update_breaks_metadata_refuted. Qed.
+Print Assumptions C12_write_through_view_refuted.
